@@ -906,7 +906,7 @@ def nontrivial(check, ex):
 
 
 TIERS = {
-    'quick': {'C02': 360000, 'C03': 400000, 'C08': 120000, 'wall': 1200, 'det': 400},
+    'quick': {'C02': 480000, 'C03': 600000, 'C08': 160000, 'wall': 1200, 'det': 400},
     'thorough': {'C02': 6000000, 'C03': 6000000, 'C08': 2000000, 'wall': 7200, 'det': 4000},
 }
 
